@@ -1040,7 +1040,34 @@ func (fr *Frame) execCutLoop(l *Loop, ls *LoopSpec, entry []*Edge) {
 	}
 	autoInv := func(phiVals map[*ssa.Phi]*Val, env map[ssa.Value]*Val) (*Term, *Term) {
 		if riPhi == nil {
-			return nil, nil
+			// counting loops: an integer loop variable that starts at 0 and is incremented by one
+			// per iteration is never negative (checked like any other invariant)
+			var ts []*Term
+			for _, p := range phis {
+				if !isGoInt(p.Type()) || phiVals[p] == nil || len(p.Edges) != 2 || fr.fi.BVInts[p] {
+					continue
+				}
+				zero, inc := false, false
+				for _, ed := range p.Edges {
+					if c, ok := ed.(*ssa.Const); ok && c.Value != nil && c.Int64() == 0 {
+						zero = true
+					}
+					if bo, ok := ed.(*ssa.BinOp); ok && bo.Op == token.ADD && bo.X == p {
+						if c, ok := bo.Y.(*ssa.Const); ok && c.Value != nil && c.Int64() == 1 {
+							inc = true
+						}
+					}
+				}
+				if zero && inc {
+					if s := canonVal(phiVals[p]).S; s.S == IntS {
+						ts = append(ts, Le(IntLit(0), s))
+					}
+				}
+			}
+			if len(ts) == 0 {
+				return nil, nil
+			}
+			return And(ts...), nil
 		}
 		var lv *Val
 		if c, ok := riLen.(*ssa.Const); ok {
@@ -1220,7 +1247,7 @@ func (fr *Frame) execCutLoop(l *Loop, ls *LoopSpec, entry []*Edge) {
 		}
 		if t, d1 := autoInv(pv, e.env); t != nil {
 			u.addObl(fmt.Sprintf("%s.rangeinv.preserve", lname), "loop.inv.preserve", e.cond, t, pos, "range index within bounds (automatic)")
-			if dec0 == nil {
+			if dec0 == nil && d1 != nil && autoDec != nil {
 				u.addObl(fmt.Sprintf("%s.decreases", lname), "loop.dec", e.cond, And(Lt(d1, autoDec), Le(IntLit(0), autoDec)), pos, "range loop variant (automatic)")
 			}
 		}
@@ -1260,6 +1287,74 @@ func (fr *Frame) loopEnv(l *Loop, phis []*ssa.Phi, phiVals map[*ssa.Phi]*Val, st
 			continue
 		}
 		cenv.vars[n] = cvOfVal(v)
+	}
+	// Loop-form tolerance (a heuristic binding: sound for the same reason as renamed locals, see hints.go).
+	// (a) a range loop `for i := range s`: at the head, the key variable's name denotes the index of the
+	//     next iteration, which is what `i` meant in the equivalent counting loop.
+	if rv, ok := byName["rangeindex"]; ok {
+		var rphi *ssa.Phi
+		for _, p := range phis {
+			if p.Comment == "rangeindex" {
+				rphi = p
+			}
+		}
+		if rphi != nil {
+			for b := range l.Blocks {
+				for _, in := range b.Instrs {
+					d, ok := in.(*ssa.DebugRef)
+					if !ok || d.IsAddr {
+						continue
+					}
+					id, ok := d.Expr.(*ast.Ident)
+					if !ok {
+						continue
+					}
+					if bo, ok := d.X.(*ssa.BinOp); ok && bo.Op == token.ADD && bo.X == rphi {
+						if _, clash := cenv.vars[id.Name]; !clash {
+							cenv.vars[id.Name] = cvInt(Add(canonVal(rv).S, IntLit(1)))
+						}
+					}
+				}
+			}
+		}
+	} else if _, has := cenv.vars["$i"]; !has {
+		// (b) a counting loop `for i := 0; i < n; i++` where the contract says $i: the loop's only
+		//     integer variable that starts at 0 and is incremented by one per iteration.
+		var cand *ssa.Phi
+		n := 0
+		for _, p := range phis {
+			if !isGoInt(p.Type()) || phiVals[p] == nil || len(p.Edges) != 2 {
+				continue
+			}
+			zero, inc := false, false
+			for _, ed := range p.Edges {
+				if c, ok := ed.(*ssa.Const); ok && c.Value != nil && c.Int64() == 0 {
+					zero = true
+				}
+				if bo, ok := ed.(*ssa.BinOp); ok && bo.Op == token.ADD && bo.X == p {
+					if c, ok := bo.Y.(*ssa.Const); ok && c.Value != nil && c.Int64() == 1 {
+						inc = true
+					}
+				}
+			}
+			if zero && inc {
+				cand = p
+				n++
+			}
+		}
+		if n == 1 {
+			cenv.vars["$i"] = cvInt(canonVal(phiVals[cand]).S)
+		}
+	}
+	// loop variables that were renamed since the pinned tree are also visible under their old names
+	for old := range localHints[fr.u.v.prog.names[fr.fn]] {
+		if alt := fr.u.v.renamedLocal(fr.fn, old); alt != "" {
+			if v, ok := byName[alt]; ok {
+				if _, clash := cenv.vars[old]; !clash {
+					cenv.vars[old] = cvOfVal(v)
+				}
+			}
+		}
 	}
 	base := cenv.resolve
 	cenv.resolve = func(name string, cur *Env) *CV {
@@ -1348,6 +1443,10 @@ func (fr *Frame) resolveLocal(name string, at *ssa.BasicBlock, env map[ssa.Value
 	if i := strings.Index(name, "#"); i >= 0 {
 		want = name[:i]
 		fmt.Sscanf(name[i+1:], "%d", &nth)
+	}
+	if alt := fr.u.v.renamedLocal(fr.fn, want); alt != "" {
+		fr.u.note("contract name " + want + " is bound to the local now called " + alt + " (same type and position as in the pinned tree)")
+		want = alt
 	}
 	// address-taken / captured locals
 	var allocs []*ssa.Alloc
@@ -2013,6 +2112,9 @@ func (fr *Frame) finish() {
 					ln := name[len("$loc_"):]
 					if v := fr.resolveLocal(ln, rblk, renv, cur.st); v != nil {
 						return v
+					}
+					if alt := fr.u.v.renamedLocal(fr.fn, ln); alt != "" {
+						ln = alt
 					}
 					// not yet defined on the way to this return: an arbitrary value of its type (the clause must guard it)
 					for _, b := range fr.fn.Blocks {
